@@ -164,4 +164,198 @@ theorem quadText_chars {o1 o2 o3 o4 : Bytes} {n1 n2 n3 n4 : Nat}
   · exact Or.inr rfl
   · exact Or.inl (g h4 hc)
 
+/-! ### src / dst value forms -/
+
+theorem cut_noSep (sep : UInt8) (s : Bytes) (h : ∀ c ∈ s, c ≠ sep) : cut sep s = (s, none) := by
+  induction s with
+  | nil => rfl
+  | cons c r ih =>
+    rw [cut]
+    have hc : c ≠ sep := h c (by simp)
+    simp only [hc, ↓reduceIte]
+    rw [ih (fun c' h' => h c' (by simp [h']))]
+
+theorem cut_append (sep : UInt8) (s rest : Bytes) (h : ∀ c ∈ s, c ≠ sep) : cut sep (s ++ sep :: rest) = (s, some rest) := by
+  induction s with
+  | nil => simp [cut]
+  | cons c r ih =>
+    simp only [List.cons_append]
+    rw [cut]
+    have hc : c ≠ sep := h c (by simp)
+    simp only [hc, ↓reduceIte]
+    rw [ih (fun c' h' => h c' (by simp [h']))]
+
+/-- the text of an IPv4 address: a dotted quad of canonical decimals `≤ 255` with value `a` -/
+def IsQuadText (q : Bytes) (a : Nat) : Prop :=
+  ∃ o1 o2 o3 o4 n1 n2 n3 n4, q = quadText o1 o2 o3 o4 ∧ canonDec? o1 = some n1 ∧ canonDec? o2 = some n2 ∧
+    canonDec? o3 = some n3 ∧ canonDec? o4 = some n4 ∧ n1 ≤ 255 ∧ n2 ≤ 255 ∧ n3 ≤ 255 ∧ n4 ≤ 255 ∧ a = quadVal n1 n2 n3 n4
+
+theorem IsQuadText.quad {q : Bytes} {a : Nat} (h : IsQuadText q a) : quad? q = some (.val a) := by
+  obtain ⟨o1, o2, o3, o4, n1, n2, n3, n4, rfl, h1, h2, h3, h4, b1, b2, b3, b4, rfl⟩ := h
+  exact quad_text h1 h2 h3 h4 ⟨b1, b2, b3, b4⟩
+
+theorem IsQuadText.chars {q : Bytes} {a : Nat} (h : IsQuadText q a) : ∀ c ∈ q, isDigit c = true ∨ c = 46 := by
+  obtain ⟨o1, o2, o3, o4, n1, n2, n3, n4, rfl, h1, h2, h3, h4, _⟩ := h
+  exact quadText_chars h1 h2 h3 h4
+
+theorem IsQuadText.noSep {q : Bytes} {a : Nat} (h : IsQuadText q a) (sep : UInt8) (hs : sep = 45 ∨ sep = 47 ∨ sep = 58) :
+    ∀ c ∈ q, c ≠ sep := by
+  intro c hc
+  rcases h.chars c hc with hd | rfl
+  · have := digit_ne hd
+    rcases hs with rfl | rfl | rfl
+    · exact this.2.1
+    · exact this.2.2
+    · intro he; subst he; revert hd; decide
+  · rcases hs with rfl | rfl | rfl <;> decide
+
+theorem v6Literals_have_colon : ∀ l ∈ Gen.HttpAccessCfg.v6Literals, (58 : UInt8) ∈ l := by decide
+
+theorem not_v6_of_no_colon {t : Bytes} (h : ∀ c ∈ t, c ≠ 58) : Gen.HttpAccessCfg.v6Literals.contains t = false := by
+  cases hc : Gen.HttpAccessCfg.v6Literals.contains t with
+  | false => rfl
+  | true =>
+    have hm : t ∈ Gen.HttpAccessCfg.v6Literals := by simpa using hc
+    exact absurd rfl (h 58 (v6Literals_have_colon t hm))
+
+theorem allowed_chars_of {t : Bytes} (h : ∀ c ∈ t, isDigit c = true ∨ c = 46 ∨ c = 45 ∨ c = 47) :
+    (!(t.all fun c => isDigit c || c == 46 || c == 45 || c == 47)) = false := by
+  simp only [Bool.not_eq_false', List.all_eq_true, Bool.or_eq_true, beq_iff_eq]
+  intro c hc
+  rcases h c hc with h | h | h | h
+  · exact Or.inl (Or.inl (Or.inl h))
+  · exact Or.inl (Or.inl (Or.inr h))
+  · exact Or.inl (Or.inr h)
+  · exact Or.inr h
+
+/-- **`A`**: the text of one address is a value that covers exactly this address -/
+theorem ip_value_single (q : Bytes) (a : Nat) (hq : IsQuadText q a) (ha : a ≠ 4294967295) :
+    ∃ item, parseIpToken Gen.HttpAccessCfg.v6Literals q = .item item ∧ ∀ ip, item.Covers ip ↔ ip = a := by
+  refine ⟨{ addr1 := a, addr2 := 0, maskK := 0 }, ?_, ?_⟩
+  · unfold parseIpToken
+    rw [not_v6_of_no_colon (hq.noSep 58 (by simp))]
+    rw [allowed_chars_of (fun c hc => by rcases hq.chars c hc with h | h; exact Or.inl h; exact Or.inr (Or.inl h))]
+    simp only [Bool.false_eq_true, ↓reduceIte]
+    rw [cut_noSep 47 q (hq.noSep 47 (by simp))]
+    simp only
+    rw [cut_noSep 45 q (hq.noSep 45 (by simp))]
+    simp only [hq.quad]
+    unfold buildItem
+    simp only [hq.quad, secondAddr, decodeMask, List.isEmpty_nil, ↓reduceIte, Option.isSome_none, Bool.false_eq_true,
+      false_and, ha, clearLow, Nat.pow_zero, Nat.div_one, Nat.mul_one]
+    simp
+  · intro ip
+    simp only [IpItem.Covers, IpItem.last, ↓reduceIte, Nat.pow_zero, true_and]
+    omega
+
+/-- **`A/len`**: a CIDR value covers exactly the block of `2^(32-len)` addresses that contains `A` -/
+theorem ip_value_cidr (q l : Bytes) (a len : Nat) (hq : IsQuadText q a) (hl : canonDec? l = some len)
+    (h1 : 1 ≤ len) (h32 : len ≤ 32) (ha : a ≠ 4294967295) :
+    ∃ item, parseIpToken Gen.HttpAccessCfg.v6Literals (q ++ 47 :: l) = .item item ∧
+      ∀ ip, item.Covers ip ↔ clearLow (32 - len) a ≤ ip ∧ ip < clearLow (32 - len) a + 2 ^ (32 - len) := by
+  have hld := canonDec_digits hl
+  refine ⟨{ addr1 := clearLow (32 - len) a, addr2 := 0, maskK := 32 - len }, ?_, ?_⟩
+  · unfold parseIpToken
+    have hcolon : ∀ c ∈ q ++ 47 :: l, c ≠ 58 := by
+      intro c hc
+      simp only [List.mem_append, List.mem_cons] at hc
+      rcases hc with hc | rfl | hc
+      · exact hq.noSep 58 (by simp) c hc
+      · decide
+      · intro he; subst he
+        have := hld.2; rw [List.all_eq_true] at this
+        have := this 58 hc; revert this; decide
+    rw [not_v6_of_no_colon hcolon]
+    have hchars : ∀ c ∈ q ++ 47 :: l, isDigit c = true ∨ c = 46 ∨ c = 45 ∨ c = 47 := by
+      intro c hc
+      simp only [List.mem_append, List.mem_cons] at hc
+      rcases hc with hc | rfl | hc
+      · rcases hq.chars c hc with h | h; exact Or.inl h; exact Or.inr (Or.inl h)
+      · exact Or.inr (Or.inr (Or.inr rfl))
+      · have := hld.2; rw [List.all_eq_true] at this; exact Or.inl (this c hc)
+    rw [allowed_chars_of hchars]
+    simp only [Bool.false_eq_true, ↓reduceIte]
+    rw [cut_append 47 q l (hq.noSep 47 (by simp))]
+    simp only
+    rw [cut_noSep 45 q (hq.noSep 45 (by simp))]
+    have hle : l.isEmpty = false := by
+      cases l with
+      | nil => exact absurd rfl hld.1
+      | cons _ _ => rfl
+    have h45 : l.contains 45 = false := by
+      cases hc : l.contains 45 with
+      | false => rfl
+      | true => exact absurd rfl (digits_noSep hld.2 45 (by simp) 45 (by simpa using hc))
+    have h47 : l.contains 47 = false := by
+      cases hc : l.contains 47 with
+      | false => rfl
+      | true => exact absurd rfl (digits_noSep hld.2 47 (by simp) 47 (by simpa using hc))
+    simp only [hle, h45, h47, Bool.false_eq_true, or_self, ↓reduceIte]
+    unfold buildItem
+    simp only [hq.quad, secondAddr]
+    unfold decodeMask
+    have hne : ¬ len > 128 := by omega
+    have hn32 : ¬ len > 32 := by omega
+    have hn0 : ¬ len = 0 := by omega
+    simp only [hle, Bool.false_eq_true, ↓reduceIte, hl, hne, hn32, hn0, Option.isSome_none, false_and, ha, false_or]
+    have : clearLow (32 - len) 0 = 0 := by simp [clearLow]
+    simp [this]
+  · intro ip
+    unfold IpItem.Covers IpItem.last
+    simp only [↓reduceIte, true_and]
+    have hp : 0 < 2 ^ (32 - len) := Nat.two_pow_pos _
+    omega
+
+/-- **`A-B`**: a range value covers exactly the addresses from `A` to `B` -/
+theorem ip_value_range (q1 q2 : Bytes) (a b : Nat) (hq1 : IsQuadText q1 a) (hq2 : IsQuadText q2 b)
+    (ha : 0 < a) (hab : a ≤ b) (hb : b < 4294967295) :
+    ∃ item, parseIpToken Gen.HttpAccessCfg.v6Literals (q1 ++ 45 :: q2) = .item item ∧
+      ∀ ip, item.Covers ip ↔ a ≤ ip ∧ ip ≤ b := by
+  refine ⟨{ addr1 := a, addr2 := b, maskK := 0 }, ?_, ?_⟩
+  · unfold parseIpToken
+    have hcolon : ∀ c ∈ q1 ++ 45 :: q2, c ≠ 58 := by
+      intro c hc
+      simp only [List.mem_append, List.mem_cons] at hc
+      rcases hc with hc | rfl | hc
+      · exact hq1.noSep 58 (by simp) c hc
+      · decide
+      · exact hq2.noSep 58 (by simp) c hc
+    rw [not_v6_of_no_colon hcolon]
+    have hchars : ∀ c ∈ q1 ++ 45 :: q2, isDigit c = true ∨ c = 46 ∨ c = 45 ∨ c = 47 := by
+      intro c hc
+      simp only [List.mem_append, List.mem_cons] at hc
+      rcases hc with hc | rfl | hc
+      · rcases hq1.chars c hc with h | h; exact Or.inl h; exact Or.inr (Or.inl h)
+      · exact Or.inr (Or.inr (Or.inl rfl))
+      · rcases hq2.chars c hc with h | h; exact Or.inl h; exact Or.inr (Or.inl h)
+    rw [allowed_chars_of hchars]
+    simp only [Bool.false_eq_true, ↓reduceIte]
+    have hno47 : ∀ c ∈ q1 ++ 45 :: q2, c ≠ 47 := by
+      intro c hc
+      simp only [List.mem_append, List.mem_cons] at hc
+      rcases hc with hc | rfl | hc
+      · exact hq1.noSep 47 (by simp) c hc
+      · decide
+      · exact hq2.noSep 47 (by simp) c hc
+    rw [cut_noSep 47 _ hno47]
+    simp only
+    rw [cut_append 45 q1 q2 (hq1.noSep 45 (by simp))]
+    have h45 : q2.contains 45 = false := by
+      cases hc : q2.contains 45 with
+      | false => rfl
+      | true => exact absurd rfl (hq2.noSep 45 (by simp) 45 (by simpa using hc))
+    simp only [h45, Bool.false_eq_true, ↓reduceIte]
+    unfold buildItem
+    simp only [hq1.quad, secondAddr, hq2.quad, decodeMask, List.isEmpty_nil, ↓reduceIte, Option.isSome_some, true_and]
+    have c0 : clearLow 0 b = b := by simp [clearLow]
+    have c1 : clearLow 0 a = a := by simp [clearLow]
+    have e1 : ¬ (b < a ∨ b = 0) := by omega
+    have e2 : ¬ (a = 0 ∨ a = 4294967295 ∨ b = 4294967295) := by omega
+    simp only [c0, c1, e1, e2, ↓reduceIte]
+  · intro ip
+    unfold IpItem.Covers IpItem.last
+    have hb0 : b ≠ 0 := by omega
+    simp only [hb0, ↓reduceIte, Nat.pow_zero, true_and]
+    omega
+
 end SquidModel.Acl.Http
